@@ -1,6 +1,7 @@
 (* C07 — configuration of one class never changes the behaviour of another.
    Only statements closed by `exact` and Print Assumptions. *)
 From DW Require Import PyStr StrConv StateModel StatePure StateHist StateFrame StateWitness StateProps.
+From DW Require Import FamModel FamLogic FamFrameProofs FamWitness.
 
 (* FRAME THEOREM: let G be a family of classes (a predicate on class ids) and h any history.  If the tables
    are disjoint — G is closed under what its operations read (nested classes, base classes, classes of
@@ -49,3 +50,106 @@ Theorem C07_refuted_subclass_bind :
   exists inG h, disjoint_tables inG h = false /\ outs_in inG h (run_out init h) <> run_out init (proj inG h).
 Proof. exists g_f40, h_f40. exact refuted_f40. Qed.
 Print Assumptions C07_refuted_subclass_bind.
+
+(* ======================================================================================================
+   SECOND MODEL (coq/model/FamModel.v): Meta classes as OBJECTS on a heap (`_META : class -> address`,
+   allocation by LoadMeta / DumpMeta / inner Meta, in-place merge `&=`), Meta.recursive_classes (lazily generated
+   nested load functions under a captured config REFERENCE), loader / dumper CLASSES with overridden hooks and the
+   create-on-miss tables CLASS_TO_LOADER / CLASS_TO_DUMPER, every configuration entry point, bindings in any order
+   and any repetition (also after first use).
+   ====================================================================================================== *)
+
+(* FRAME THEOREM over ALL histories of the richer state.  For every program text `env`, every family G, every
+   allocation policy that hands a class only Meta objects created for that class and looks only at that class's own
+   cell (`alloc_ok`; today's policy - a new object per call - is one, C07_fresh_alloc_ok), and EVERY history h:
+   if the program text is statically separated (`sep_env`: the classes nested in a class are on its side of the
+   border; JSONWizard classes with equal qualnames are on the same side) and every dumped value holds only instances
+   of its own side (`closed_hist`), then G's outcomes are those of the history with every operation of the other
+   classes deleted.  No safe-history hypothesis: the proof is a footprint argument (FamLogic.v) - every function of
+   the model preserves the separation invariant, leaves the other side's cells untouched and, from two states that
+   agree on its side, computes the same result. *)
+Theorem C07_heap_frame :
+  forall env al inG h,
+  sep_env inG env = true -> alloc_ok al -> closed_hist inG h = true ->
+  fouts_in inG h (frun_out env al finit h) = frun_out env al finit (fproj inG h).
+Proof. intros env al inG h Hs Ha Hc. exact (fam_frame env al inG Hs Ha h Hc). Qed.
+Print Assumptions C07_heap_frame.
+
+Theorem C07_fresh_alloc_ok : alloc_ok fresh_alloc.
+Proof. exact fresh_alloc_ok. Qed.
+Print Assumptions C07_fresh_alloc_ok.
+
+(* THE SEPARATION INVARIANT holds after every history: no Meta object, generated function, captured config or
+   initialiser is reachable from both sides of the border, and every loader / dumper class stored for a class N
+   comes from N's own declaration *)
+Theorem C07_heap_separation_invariant :
+  forall env al inG h,
+  sep_env inG env = true -> alloc_ok al -> closed_hist inG h = true ->
+  Inv env inG (frun env al finit h).
+Proof. intros env al inG h Hs Ha Hc. exact (fam_sep_invariant env al inG Hs Ha h Hc). Qed.
+Print Assumptions C07_heap_separation_invariant.
+
+(* for ALL histories, without any hypothesis on the program: the loader / dumper class stored for N, and the hooks
+   the parsers of N's own fields captured, are N's own (N itself when it subclasses LoadMixin / DumpMixin, else a
+   subclass of the library's mixin) - never another user class's *)
+Theorem C07_loader_depends_on_own_declaration :
+  forall env al h, alloc_ok al ->
+  forall n,
+    (forall l, fc_loader (fs_cls (frun env al finit h) n) = Some l -> lc_base l = own_lbase env n) /\
+    (forall l, fc_dumper (fs_cls (frun env al finit h) n) = Some l -> dc_base l = own_dbase env n) /\
+    (forall ps x b, fc_parsers (fs_cls (frun env al finit h) n) = Some ps ->
+                    (In (x, QInt b) ps \/ In (x, QStr b) ps) -> b = own_lbase env n).
+Proof. exact fam_loader_own. Qed.
+Print Assumptions C07_loader_depends_on_own_declaration.
+
+(* non-vacuity: a LoadMixin root with recursive_classes and an inner Meta, re-bound before and after first use, next
+   to a JSONPyWizard + DumpMixin root that gets recursive_classes and a later dump transform; 15 operations, 8 of G,
+   none outside the modelled domain *)
+Example C07_heap_frame_example :
+  sep_env ex_G ex_env = true /\ closed_hist ex_G ex_h = true /\
+  forallb no_model_error (frun_out ex_env fresh_alloc finit ex_h) = true /\
+  List.length (fproj ex_G ex_h) = 8.
+Proof. exact frame_example_fam. Qed.
+Print Assumptions C07_heap_frame_example.
+
+(* one Meta object referenced from both sides of a border contradicts the invariant ... *)
+Theorem C07_shared_meta_not_separated :
+  forall env inG s c c' a,
+  inG c <> inG c' -> fc_meta (fs_cls s c) = Some a -> fc_meta (fs_cls s c') = Some a -> ~ Inv env inG s.
+Proof. exact shared_meta_not_separated. Qed.
+Print Assumptions C07_shared_meta_not_separated.
+
+(* ... and BREAKS THE FRAME: under an allocation policy that memoises LoadMeta(..) by settings (not `alloc_ok`), two
+   unrelated classes bound with equal settings share one object; a second binding to F merges into it in place and G,
+   statically separated from F, starts to skip defaults.  With today's policy the same program is framed. *)
+Theorem C07_refuted_shared_meta_object :
+  exists env inG h,
+  sep_env inG env = true /\ closed_hist inG h = true /\
+  fouts_in inG h (frun_out env memo_alloc finit h) <> frun_out env memo_alloc finit (fproj inG h) /\
+  fc_meta (fs_cls (frun env memo_alloc finit h) 1) = fc_meta (fs_cls (frun env memo_alloc finit h) 2) /\
+  fouts_in inG h (frun_out env fresh_alloc finit h) = frun_out env fresh_alloc finit (fproj inG h).
+Proof. exists memo_env, memo_G, memo_h. exact refuted_memo_alloc. Qed.
+Print Assumptions C07_refuted_shared_meta_object.
+
+Theorem C07_memo_alloc_not_ok : ~ alloc_ok memo_alloc.
+Proof. exact memo_alloc_not_ok. Qed.
+Print Assumptions C07_memo_alloc_not_ok.
+
+(* F11 in the heap model: the second class picks up the ADDRESS of the first class's inner Meta through the shared
+   qualname (sep_env = false); F's later binding reconfigures G *)
+Theorem C07_refuted_heap_same_qualname :
+  exists env inG h,
+  sep_env inG env = false /\ closed_hist inG h = true /\
+  fouts_in inG h (frun_out env fresh_alloc finit h) <> frun_out env fresh_alloc finit (fproj inG h) /\
+  fc_meta (fs_cls (frun env fresh_alloc finit h) 2) = Some (1, 0).
+Proof. exists qn_env, qn_G, qn_h. exact refuted_qualname. Qed.
+Print Assumptions C07_refuted_heap_same_qualname.
+
+(* F10 under recursive_classes: the nested class's lazily generated load function captures the key transform that
+   the other root's cascade wrote to the nested class's loader (sep_env = false: the nested class is shared) *)
+Theorem C07_refuted_shared_nested_recursive_classes :
+  exists env inG h,
+  sep_env inG env = false /\ closed_hist inG h = true /\
+  fouts_in inG h (frun_out env fresh_alloc finit h) <> frun_out env fresh_alloc finit (fproj inG h).
+Proof. exists rc_env, rc_G, rc_h. exact refuted_shared_nested_rc. Qed.
+Print Assumptions C07_refuted_shared_nested_recursive_classes.
